@@ -42,3 +42,40 @@ class ClientRig:
                 while self.deferred:
                     self.client.on_response(self.client.tx_cobid, self.deferred.pop(0), 0.0)
         sx.env().delivery_hook = hook
+
+
+class ServerRig:
+    """real LocalNode (SdoServer) on a real Network whose send_message is replaced; requests are fed
+    through Network.notify like a bus interface would"""
+
+    def __init__(self, od, node_id=2):
+        Network = sx.mod("canopen.network").Network
+        LocalNode = sx.mod("canopen.node.local").LocalNode
+        self.net = Network()
+        self.out = []
+        self.net.send_message = self._send
+        self.node = LocalNode(node_id, od)
+        self.net.add_node(self.node)
+        self.rx = 0x600 + node_id
+        self.tx = 0x580 + node_id
+        self.escaped = []
+
+    def _send(self, can_id, data, remote=False):
+        self.out.append((can_id, data, remote))
+
+    def deliver(self, frame):
+        """feed one request frame; returns the response frames emitted on the server's tx COB-ID"""
+        n0 = len(self.out)
+        self.net.notify(self.rx, frame, 0.0)
+        new = self.out[n0:]
+        for cid, data, remote in new:
+            sx.prove(cid == self.tx and not remote, "response on the server's tx COB-ID", "C02/resp/cob-id")
+        return [d for cid, d, r in new]
+
+    def store_snapshot(self):
+        """data_store as {(index, sub): bytes} with concrete keys"""
+        snap = {}
+        for i in self.node.data_store.keys():
+            for s in self.node.data_store[i].keys():
+                snap[(sx.concretize(i), sx.concretize(s))] = self.node.data_store[i][s]
+        return snap
